@@ -506,61 +506,74 @@ GENERIC = {
     "C01": dict(
         rule="random 2-6 rule single-rule-set definitions over 3-5 letters (shared prefixes, cycles, joins, overlapping ranges, `_`), compiled through the real lexer! macro; inputs: all strings up to a length bound over the definition's alphabet plus one foreign letter, automaton-guided strings with failing continuations, random strings; oracle: reference maximal-munch lexer (derivative automaton, cross-checked against a denotational matcher). Non-trivial = distinct (definition, input) pairs in which the reference rewound at least one character or resolved a tie between two or more rules.",
         nt="nt_C01",
-        parts=[("munch", "base", 320, 4800, 20, SMALL, BIG), ("rctx", "base", 100, 1600, 20, SMALL, BIG)],
+        parts=[("munch", "base", 320, 4800, 20, SMALL, BIG), ("rctx", "base", 100, 1600, 20, SMALL, BIG),
+               ("mixedx", "base", 40, 600, 20, merged(SMALL, VP_ALPHA_CAP=6), merged(BIG, VP_ALPHA_CAP=7))],
     ),
     "C03": dict(
         rule="definitions with 2-7 rule sets (empty sets, shuffled declaration order, shared prefixes, self-switches, switch-and-return, switches in fallible rules); oracle: reference lexer; a divergence is attributed to C03 when the observed action belongs to a rule set other than the reference's active one, or when restarting the reference in another rule set reproduces the remaining observed history; the eoi family adds `$` rules inside non-Init rule sets. Non-trivial = distinct (definition, input) pairs whose reference run enters two or more rule sets.",
         nt="nt_C03",
-        parts=[("rulesets", "base", 240, 3600, 20, SMALL, BIG), ("recover", "base", 120, 1600, 20, SMALL, BIG), ("eoi", "base", 100, 1600, 20, SMALL, BIG)],
+        parts=[("rulesets", "base", 240, 3600, 20, SMALL, BIG), ("recover", "base", 120, 1600, 20, SMALL, BIG), ("eoi", "base", 100, 1600, 20, SMALL, BIG),
+               ("mixedx", "base", 40, 600, 20, merged(SMALL, VP_ALPHA_CAP=6), merged(BIG, VP_ALPHA_CAP=7))],
     ),
     "C04": dict(
         rule="rules with right contexts of every operator shape (multi-character literals, sets, repetition, nullable, `$`, class differences, built-ins) at every priority position, mixed with context-free rules; the eoictx family adds contexts in which `$` repeats, sits under `*` / `+` or is followed by further factors. Non-trivial = distinct (definition, input) pairs in which at least one context evaluation failed and at least one succeeded.",
         nt="nt_C04",
-        parts=[("rctx", "base", 320, 4800, 20, SMALL, BIG), ("scope", "base", 60, 800, 20, SMALL, BIG), ("eoictx", "base", 120, 1600, 20, SMALL, BIG)],
+        parts=[("rctx", "base", 320, 4800, 20, SMALL, BIG), ("scope", "base", 60, 800, 20, SMALL, BIG), ("eoictx", "base", 120, 1600, 20, SMALL, BIG),
+               ("mixedx", "base", 40, 600, 20, merged(SMALL, VP_ALPHA_CAP=6), merged(BIG, VP_ALPHA_CAP=7))],
     ),
     "C05": dict(
         rule="definitions with `$` rules in Init / other rule sets / contexts and rules that only complete at end of input; all strings up to a bound (so the input ends at every point). Model-free monitors: fused stream (3 extra next() calls after None), conservation (no character skipped without match or error). Non-trivial = distinct (definition, input) pairs ending outside Init, inside a lexeme, after a rewind, or through a `$` rule.",
         nt="nt_C05",
-        parts=[("eoi", "base", 320, 4800, 20, SMALL, BIG)],
+        parts=[("eoi", "base", 320, 4800, 20, SMALL, BIG),
+               ("mixedx", "base", 40, 600, 20, merged(SMALL, VP_ALPHA_CAP=6), merged(BIG, VP_ALPHA_CAP=7))],
     ),
     "C06": dict(
         rule="definitions over an alphabet mixing ASCII, LF, TAB, 2-4 byte, double-width and zero-width characters; every Loc in tokens, errors and action logs is rescanned from the beginning of the input (model-free oracle), spans ordered and on char boundaries, input[start..end] == match_(). Non-trivial = distinct (definition, input) pairs with a rewind across a non-ASCII/TAB/LF character.",
         nt="nt_C06",
-        parts=[("loc", "base", 240, 3200, 20, merged(SMALL, VP_ALPHA_CAP=7, VP_EXH_MAX=3000), merged(BIG, VP_ALPHA_CAP=8, VP_EXH_MAX=40000))],
+        parts=[("loc", "base", 240, 3200, 20, merged(SMALL, VP_ALPHA_CAP=7, VP_EXH_MAX=3000), merged(BIG, VP_ALPHA_CAP=8, VP_EXH_MAX=40000)),
+               ("mixedx", "base", 40, 600, 20, merged(SMALL, VP_ALPHA_CAP=6), merged(BIG, VP_ALPHA_CAP=7))],
     ),
     "C07": dict(
         rule="definitions with fallible rules returning Err under guards (after accumulated continue_ matches, after switches); oracle: reference lexer; projection: error items (kind, payload, location). Non-trivial = distinct (definition, input) pairs with at least one error item.",
         nt="nt_C07",
-        parts=[("actions", "base", 200, 2400, 20, SMALL, BIG), ("munch", "base", 120, 2400, 20, SMALL, BIG)],
+        parts=[("actions", "base", 200, 2400, 20, SMALL, BIG), ("munch", "base", 120, 2400, 20, SMALL, BIG),
+               ("mixedx", "base", 40, 600, 20, merged(SMALL, VP_ALPHA_CAP=6), merged(BIG, VP_ALPHA_CAP=7))],
     ),
     "C08": dict(
         rule="multi-rule-set definitions with failures inside non-Init rule sets followed by text lexable both in Init and (differently) in the abandoned set; oracle: reference lexer (failure => Init, persistently; user state untouched). Non-trivial = distinct (definition, input) pairs with a failure outside Init followed by two or more items.",
         nt="nt_C08",
-        parts=[("recover", "base", 320, 4800, 20, SMALL, BIG)],
+        parts=[("recover", "base", 320, 4800, 20, SMALL, BIG),
+               ("mixedx", "base", 40, 600, 20, merged(SMALL, VP_ALPHA_CAP=6), merged(BIG, VP_ALPHA_CAP=7))],
     ),
     "C09": dict(
         rule="all constructors incl. a counting iterator; monitors: panics (catch_unwind), items <= n+1, actions <= n+1, read budget, CPU watchdog; inputs include scalar values no definition mentions (U+0000, U+007F/80, both sides of the surrogate gap, U+FFFF/10000, U+EFFFF/F0000, U+10FFFF) alone and after short prefixes, definitions whose classes compile to binary-search tables (bigclass family), stress strings of 3k (quick) / 10k (thorough) characters, ten times that for the all-unlexable input (one repeated character, only unlexable characters, long near-matches). Non-trivial = distinct (definition, input) pairs with n >= 1000, a rewind, or an error at the end.",
         nt="nt_C09",
         parts=[("progress", "base", 200, 2400, 20, merged(SMALL, VP_STRESS_N=3000, VP_CTORS=1, VP_HOSTILE=1), merged(BIG, VP_STRESS_N=10000, VP_CTORS=1, VP_HOSTILE=1)),
                ("mixed", "base", 120, 2400, 20, merged(SMALL, VP_CTORS=1, VP_HOSTILE=1), merged(BIG, VP_CTORS=1, VP_HOSTILE=1)),
-               ("bigclass", "base", 40, 600, 10, merged(SMALL, VP_HOSTILE=1), merged(BIG, VP_HOSTILE=1))],
+               ("bigclass", "base", 40, 600, 10, merged(SMALL, VP_HOSTILE=1), merged(BIG, VP_HOSTILE=1)),
+               ("mixedx", "base", 40, 600, 20, merged(SMALL, VP_ALPHA_CAP=6, VP_CTORS=1, VP_HOSTILE=1), merged(BIG, VP_ALPHA_CAP=7, VP_CTORS=1, VP_HOSTILE=1))],
     ),
     "C10": dict(
         rule="definitions with every assignment of action kinds (skip, simple, return, continue with/without reset, switch, switch-and-return, fallible ok/err) under guards on peek/length/counter; oracle: reference lexer on the full action log (match_loc, match_, peek, counter, match after reset) and items; metamorphic: sugar forms vs their documented desugaring. Non-trivial = distinct (definition, input) pairs whose action history has length >= 3 and >= 2 different kinds.",
         nt="nt_C10",
-        parts=[("actions", "desugar", 200, 3200, 20, merged(SMALL, VP_CTORS=1), merged(BIG, VP_CTORS=1)), ("accum", "desugar", 160, 2400, 20, SMALL, BIG)],
+        parts=[("actions", "desugar", 200, 3200, 20, merged(SMALL, VP_CTORS=1), merged(BIG, VP_CTORS=1)), ("accum", "desugar", 160, 2400, 20, SMALL, BIG),
+               ("mixedx", "base", 40, 600, 20, merged(SMALL, VP_ALPHA_CAP=6, VP_CTORS=1), merged(BIG, VP_ALPHA_CAP=7, VP_CTORS=1))],
     ),
     "C14": dict(
-        rule="every execution is repeated with new, new_from_iter(Chars), new_from_iter_with_state(Chars), and both iterator constructors over a counting iterator (different Clone implementation); all item streams and action logs (minus match_ text) must equal those of new_with_state. Non-trivial = distinct (definition, input) pairs with a rewind (iterator re-seated) or a context evaluation.",
+        rule="every execution is repeated with new, new_from_iter(Chars), new_from_iter_with_state(Chars), and both iterator constructors over a counting iterator (different Clone implementation); all item streams and action logs (minus match_ text) must equal those of new_with_state; the loc family adds inputs with LF, TAB, 2-4 byte, double-width and zero-width characters (columns must agree too). Non-trivial = distinct (definition, input) pairs with a rewind (iterator re-seated) or a context evaluation.",
         nt="nt_C14",
         parts=[("mixed", "base", 200, 2400, 20, merged(SMALL, VP_CTORS=1), merged(BIG, VP_CTORS=1)),
-               ("rctx", "base", 120, 2400, 20, merged(SMALL, VP_CTORS=1), merged(BIG, VP_CTORS=1))],
+               ("rctx", "base", 120, 2400, 20, merged(SMALL, VP_CTORS=1), merged(BIG, VP_CTORS=1)),
+               ("loc", "base", 80, 1200, 20, merged(SMALL, VP_CTORS=1, VP_ALPHA_CAP=7, VP_EXH_MAX=1500), merged(BIG, VP_CTORS=1, VP_ALPHA_CAP=8, VP_EXH_MAX=12000)),
+               ("mixedx", "base", 40, 600, 20, merged(SMALL, VP_ALPHA_CAP=6, VP_CTORS=1), merged(BIG, VP_ALPHA_CAP=7, VP_CTORS=1))],
     ),
     "C15": dict(
-        rule="lexers derive Clone; for every input and every clone point k in 0..=calls+1 (after errors, switches, the final None) and three interleavings (original first, clone first, alternating) both must produce the primary run's remaining stream. Non-trivial = distinct (definition, input) pairs with a rewind, a switch or a failure before some clone point.",
+        rule="lexers derive Clone; for every input and every clone point k in 0..=calls+1 (after errors, switches, the final None) and three interleavings (original first, clone first, alternating) both must produce the primary run's remaining stream; the bigclass family adds lexers with several table-compiled classes (state that lives outside the lexer value, e.g. a cache next to a table, would be shared between clone and original). Non-trivial = distinct (definition, input) pairs with a rewind, a switch or a failure before some clone point.",
         nt="nt_C15",
         parts=[("mixed", "base", 200, 2400, 20, merged(SMALL, VP_CLONES=1, VP_EXH_MAX=400, VP_RANDOM=10, VP_GUIDED=20), merged(BIG, VP_CLONES=1, VP_EXH_MAX=3000)),
-               ("recover", "base", 120, 2400, 20, merged(SMALL, VP_CLONES=1, VP_EXH_MAX=400, VP_RANDOM=10, VP_GUIDED=20), merged(BIG, VP_CLONES=1, VP_EXH_MAX=3000))],
+               ("recover", "base", 120, 2400, 20, merged(SMALL, VP_CLONES=1, VP_EXH_MAX=400, VP_RANDOM=10, VP_GUIDED=20), merged(BIG, VP_CLONES=1, VP_EXH_MAX=3000)),
+               ("bigclass", "base", 40, 600, 10, merged(SMALL, VP_CLONES=1, VP_EXH_MAX=400, VP_RANDOM=10, VP_GUIDED=20), merged(BIG, VP_CLONES=1, VP_EXH_MAX=3000)),
+               ("mixedx", "base", 40, 600, 20, merged(SMALL, VP_ALPHA_CAP=6, VP_CLONES=1, VP_EXH_MAX=400, VP_RANDOM=10, VP_GUIDED=20), merged(BIG, VP_ALPHA_CAP=7, VP_CLONES=1, VP_EXH_MAX=3000))],
     ),
 }
 
